@@ -20,7 +20,7 @@ import (
 // every error raised below it from the offending value to another token.
 
 func init() {
-	register(&Rule{ID: "POS-1", Min: 15, Run: runPOS1,
+	register(&Rule{ID: "POS-1", Min: 16, Run: runPOS1,
 		Doc: "errors get their position from the reviewed handlers only: the functions that defer lexeme.CatchLexEventError (or its user-type variant) are exactly the reviewed ones, each handing over the reviewed lexeme — the event being processed (the function's lexeme parameter), the document lexeme being validated, or the node's own basis lexeme; a handler added closer to where errors are raised, or one given another lexeme, moves errors away from the offending token"})
 }
 
@@ -31,6 +31,7 @@ var posReviewed = map[string]string{
 	"notations/jschema/internal/validator.(*additionalPropertiesValidator).feed": "param jsonLexeme",
 	"notations/jschema/internal/validator.(*literalValidator).feed":              "param jsonLexeme",
 	"notations/jschema/internal/validator.(*objectValidator).feed":               "param jsonLexeme",
+	"notations/jschema/internal/validator.(*nullValidator).feed":                 "param jsonLexeme",
 	"notations/jschema/internal/loader.(*enumValueLoader).Load":                  "param lex",
 	"notations/jschema/internal/loader.(*allOfValueLoader).Load":                 "param lex",
 	"notations/jschema/internal/loader.(*ruleLoader).load":                       "param lex",
@@ -130,5 +131,40 @@ func runPOS1(c *load.Ctx, r *report.RuleResult) {
 		if !seen[k] {
 			r.Bad("position-handler|"+k, "", "the reviewed position handler of "+k+" is gone: errors raised below it are reported further out, at another lexeme")
 		}
+	}
+}
+
+// POS-2 — positions come from the scanners.
+
+func init() {
+	register(&Rule{ID: "POS-2", Min: 3, Run: runPOS2,
+		Doc: "only scanners make lexemes: lexeme.NewLexEvent is called from the three scanner packages only (formats/json, the schema scanner, rules/enum) — every position an error can carry is then the span of something a scanner delivered (the offending value or key, a node's basis lexeme); a lexeme made up by the loader, the checker or a validator to \"report the error somewhere more convenient\" points where no scanner said anything is"})
+}
+
+func runPOS2(c *load.Ctx, r *report.RuleResult) {
+	mk := c.Func("internal/lexeme", "NewLexEvent")
+	if mk == nil {
+		r.Unk("anchor|lexeme.NewLexEvent", "", "not found")
+		return
+	}
+	allowed := map[string]bool{"formats/json": true, "notations/jschema/internal/scanner": true, "rules/enum": true, "internal/lexeme": true}
+	per := map[string]int{}
+	for _, fn := range c.ModuleFunctions() {
+		rel := load.FuncPkgRel(fn)
+		if load.IsAux(rel) {
+			continue
+		}
+		sites := callSites(fn, mk)
+		if len(sites) == 0 {
+			continue
+		}
+		if allowed[rel] {
+			per[rel] += len(sites)
+			continue
+		}
+		r.Bad("lexeme-maker|"+load.FuncKey(fn), c.Pos(sites[0].Pos()), fmt.Sprintf("%s makes a lexeme of its own (%d site(s)): an error positioned with it points at a span no scanner delivered", load.FuncKey(fn), len(sites)))
+	}
+	for _, rel := range sortedKeys(per) {
+		r.OK("lexeme-maker|"+rel, "", fmt.Sprintf("%d site(s) in a scanner package", per[rel]))
 	}
 }
